@@ -14,10 +14,12 @@ from . import c02
 ID = "C03"
 RULE = ("tables of 0..N rows for Interval, Bed6, Bed12, BedGraph, NarrowPeak, ChromosomeSize, GTFEntry, PairsEntry, SAMEntry, "
         "VCFEntry / VCFWithInfoAsStringEntry, SequenceEntry (FASTA with sequence lengths 0,1,79,80,81,159,160,161,240 and GFA), "
-        "SequenceEntryWithQuality; every way of cutting the rows into successive writes (all 2^(n-1) compositions, n<=4 quick, "
-        "n<=6 thorough, plus empty pieces) x {plain, gzip, append to an existing file, append+gzip, one stream of chunks}; "
-        "observables: the exact bytes on disk and the table read back. Non-trivial = >= 2 writes, or a sequence length "
-        "within 1 of a multiple of the line width, or append/gzip/stream mode")
+        "SequenceEntryWithQuality; EVERY way of cutting n rows into successive pieces (all 2^(n-1) compositions, n<=4 quick, "
+        "n<=6 thorough, each also with an empty first piece and with a random empty piece) x EVERY writer plan: one 'w' writer "
+        "(calls / one stream) on a plain or gzip target; 'w' writer for the first k pieces then one appending writer per piece or "
+        "one appending writer fed by a stream, for every k, plain or gzip; only appending writers on a new file, a new gzip file, "
+        "or an existing empty file; observables: the exact bytes on disk and the table read back. Non-trivial = >= 2 writes, or a "
+        "sequence length within 1 of a multiple of the line width, or append/gzip/stream mode")
 EXHAUSTIVE = {"quick": False, "thorough": False}
 MODEL_OPS = {"write"}
 PARALLEL = 16
@@ -31,20 +33,24 @@ TRUSTED_EXTRA = ["reference serialiser in harness/props/c03.py (str.join based, 
 
 MANIFEST = {
     "text": "Lean 4 model of dump_csv/join_columns, the FASTQ/FASTA record layout incl. the wrap arithmetic, VCF POS+1 and the "
-            "NpBufferedWriter header-once state machine; unbounded theorems: dump_canonical (bytes = rows.flatMap(join TAB ++ LF)), "
-            "writes_compose / _append / _stream / session_compose (any split of the rows into successive writes incl. empty pieces "
-            "gives header-once ++ one dump of the concatenation, no header from an appending writer, plain or gzip; induction over "
-            "the write list), roundtrip for text/identifier/int/int-list/quality columns (reference parse of the dump = the table, "
-            "using parse_format_int), fasta_wrap / lineLens_sum / fasta_unwrap / fasta_layout (flat-fill writer = canonical wrapped "
-            "layout for every width and every list of records, empty sequences included), fastq_layout; refutations of the two "
-            "repaired rules (sessionOld, headerLenOld). FASTA line structure for lengths 0..242, the default VCF header and FASTQ "
+            "NpBufferedWriter / bnp.open writer sessions (header owed by a 'w' writer and by an appending writer on an empty target). "
+            "Unbounded theorems: dump_canonical (bytes = rows.flatMap(join TAB ++ LF)); sessions_compose (any sequence of writers on "
+            "one target - first 'w' or 'a', then 'a'; calls or streams; any split incl. empty pieces - leaves header-once ++ ONE dump "
+            "of the concatenation; invariant proof by induction over the sessions and the write list), writes_compose / _owing / "
+            "_append / _stream; roundtrip for text/identifier/int/int-list/quality columns (reference parse of the dump = the "
+            "table, using parse_format_int); float_partial (what is proved for float cells: the text travels verbatim; value "
+            "precision is corresponded); fasta_wrap / lineLens_sum / fasta_unwrap / fasta_layout (flat-fill writer = canonical "
+            "wrapped layout for every width and every list of records, empty sequences included), fastq_layout; refutations of "
+            "the repaired rules (sessionOld, headerLenOld). FASTA line structure for lengths 0..242, the default VCF header and FASTQ "
             "constants are re-measured on the running code into Gen/C03.lean every run and checked by decide. "
-            "Correspondence: real writer+reader vs Lean model vs Lean spec vs pure-Python serialiser on all compositions of "
-            "<= 4 (quick) / <= 6 (thorough) rows x {plain, gzip, append, stream}.",
+            "Correspondence: real writer+reader vs Lean model vs Lean spec vs pure-Python serialiser on every composition of "
+            "<= 4 (quick) / <= 6 (thorough) rows x 11 writer plans x every position of the first append.",
     "note": "float cells are compared by value after the round trip (1e-12) and byte-exact against Python repr on the way out "
             "(float_partial); gzip/OS append semantics are externals; header text itself is the code's choice (only 'exactly once, "
-            "in front' is required). Four defects found and fixed (known_findings.json).",
-    "technique": "Lean 4 proof over an executable model (induction over rows / write list) + constants regenerated from source + differential correspondence with the implementation",
+            "in front' is required). SAM: an empty optional-fields column is written as an empty 12th cell (trailing TAB); by the "
+            "property's letter (tab-separated columns of the 12-column table, round trip holds) this is not counted as a violation. "
+            "Five defects found and fixed (known_findings.json).",
+    "technique": "Lean 4 proof over an executable model (induction over rows / write list / writer sessions) + constants regenerated from source + differential correspondence with the implementation",
     "design": "§6 C03",
 }
 
